@@ -321,7 +321,8 @@ impl<'a> Parser<'a> {
             } else {
                 None
             };
-            if let Some(group) = group {
+            // protect BitSet against unreasonably large value (same bound as numbered backrefs)
+            if let Some(group) = group.filter(|&group| group < self.re.len() / 2) {
                 self.backrefs.insert(group);
                 return Ok((ix + skip, create_expr(group)));
             }
